@@ -626,7 +626,12 @@ def run(ctx):
     # ---- model vs implementation ---------------------------------------------
     mism = None
     nev = 0
-    if model_ok:
+    if found_new:
+        # a concrete failing input is in hand: the verdict does not need the
+        # (expensive) model evaluation
+        ctx.note('model_skipped', 'oracle found a failing input')
+        nev = sum(len(r) for r in out['sweep'])
+    if model_ok and not found_new:
         pre = COQ_CODE + 'Definition specs : list event := [%s].\n' % ';'.join(
             '(1%%nat, %s)' % coq_moment(s) for s in specs)
         # quick: the model is compared on every dow spec, dom at two times of
